@@ -402,14 +402,21 @@ fn random64(ctx: &Ctx, r: &mut Report) {
 }
 
 pub fn run(ctx: &Ctx, r: &mut Report) {
-	if ctx.mine(0) {
-		unary(r);
-		boundaries(r);
-		r.sample(|| json!({"pair": ["Buy(255)", "Sell(255)"], "a-b": show(Action::Buy(255) - Action::Sell(255)), "expected_strength": 255}));
-		r.sample(|| json!({"from(0.3f64)": show(Action::from(0.3f64)), "ratio": Action::from(0.3f64).ratio().map(|x| x as f64)}));
+	// conversions and the arithmetic are total: a panic anywhere in a part (even one raised inside core, e.g. an integer
+	// overflow check reached from the crate's code) is a violation, reported under the part's name
+	fn part(name: &str, r: &mut Report, f: impl FnOnce(&mut Report)) {
+		if let Err(p) = guard(|| f(&mut *r)) {
+			r.violate(&format!("C16|{name}|panic:{}", p.class()), &format!("an Action conversion / operation panicked: {} ({})", p.msg, p.loc), || json!({"part": name}));
+		}
 	}
-	pairs(ctx, r);
-	triples(ctx, r);
-	floats32(ctx, r);
-	random64(ctx, r);
+	if ctx.mine(0) {
+		part("unary", r, |r| unary(r));
+		part("boundaries", r, |r| boundaries(r));
+		r.sample(|| json!({"pair": ["Buy(255)", "Sell(255)"], "a-b": show(Action::Buy(255) - Action::Sell(255)), "expected_strength": 255}));
+		part("sample", r, |r| r.sample(|| json!({"from(0.3f64)": show(Action::from(0.3f64)), "ratio": Action::from(0.3f64).ratio().map(|x| x as f64)})));
+	}
+	part("pairs", r, |r| pairs(ctx, r));
+	part("triples", r, |r| triples(ctx, r));
+	part("from-f32", r, |r| floats32(ctx, r));
+	part("from-f64", r, |r| random64(ctx, r));
 }
